@@ -262,7 +262,11 @@ class C12(Check):
             "of inactive kinds -> CKR_OPERATION_NOT_INITIALIZED), and plainly in session B. Judged: state codes; A's output "
             "== B's output (randomised mechanisms: cross-verify / decrypt); every reported length L satisfies needed <= L <= "
             "input + buffered + block + tag (or the fixed size) and a buffer of L succeeds; canaries behind the announced and "
-            "the reported length; after the end (success or failure) the operation is gone. Non-trivial = a query or "
+            "the reported length; after the end (success or failure) the operation is gone - the latter also as a complete small-scope "
+            "enumeration: every mechanism x direction x way to make the operation fail (input of a wrong length, undecryptable / wrongly padded / "
+            "wrongly tagged ciphertext, wrong signature or signature length, over-long input to RSA; single-part and at the Final of a multi-part "
+            "operation; 4 RSA key sizes): the continuation call must answer CKR_OPERATION_NOT_INITIALIZED and a new Init must not find an "
+            "operation active. Non-trivial = a query or "
             "too-small attempt in the middle of a multi-part operation, or a Final with zero buffered bytes.")
     assumptions = ["Update/Final on single-part-only mechanisms and single-part calls after an Update are not generated "
                    "(the statement does not fix their outcome)", "arguments are non-NULL and well formed (NULL arguments belong to C17)"]
@@ -396,7 +400,134 @@ class C12(Check):
         self.count("noise_not_initialized")
         return "notinit"
 
+
+    # -- small-scope enumeration: an operation that FAILED is gone (every mechanism x direction x way to make it fail) -------------------
+    def fail_cells(self):
+        cells = []
+        for name in SPEC_NAMES:
+            sp = SPECS[name]
+            k = sp["kind"]
+            if k == "cipher":
+                if sp["block"] > 1 and not sp["pad"]:
+                    for d in ("enc", "dec"):
+                        cells += [[name, d, "single_badlen"], [name, d, "multi_badlen_final"]]
+                if sp["pad"]:
+                    cells += [[name, "dec", "single_badlen"], [name, "dec", "single_garbage"], [name, "dec", "multi_garbage_final"], [name, "dec", "multi_badlen_final"]]
+                if sp.get("gcm"):
+                    cells += [[name, "dec", "single_garbage"], [name, "dec", "multi_garbage_final"], [name, "dec", "single_short"]]
+            elif k == "mac":
+                cells += [[name, "dec", "single_badsig"], [name, "dec", "single_badsiglen"], [name, "dec", "multi_badsig_final"], [name, "dec", "multi_badsiglen_final"]]
+            elif k == "asign":
+                cells += [[name, "dec", "single_badsig"], [name, "dec", "single_badsiglen"]]
+                if sp.get("multi"):
+                    cells += [[name, "dec", "multi_badsig_final"], [name, "dec", "multi_badsiglen_final"]]
+                if "maxin" in sp or "fixed_in" in sp:
+                    cells.append([name, "enc", "single_toolong"])
+            elif k == "aenc":
+                cells += [[name, "enc", "single_toolong"], [name, "dec", "single_badlen"], [name, "dec", "single_garbage"]]
+        out = []
+        for c in cells:
+            for rsa in ((0, 1, 2, 3) if SPECS[c[0]]["key"] == "rsa" else (0,)):
+                out.append(["failcell"] + c + [rsa])
+        return out
+
+    def extra(self, ctx, tier, shard, nshards):
+        cells = self.fail_cells()
+        ctx.extra["fail_cells_total"] = len(cells) if shard == 0 else 0
+        for i, cell in enumerate(cells):
+            if i % nshards != shard:
+                continue
+            self.run_failcell(ctx, cell)
+        return None
+
+    def run_failcell(self, ctx, cell):
+        _, name, direction, how, rsa = cell
+        prog = {"failcell": cell, "spec": name, "seed": 17 + rsa, "keylen": [16, 24, 32][rsa % 3], "rsa": rsa}
+        self._ctx, self._prog = ctx, prog
+        sp = SPECS[name]
+        self._desc = "%s/%s %s" % (name, direction, how)
+        stage = ctx.shared["stage"]
+        w = stage.fresh()
+        slot = ctx.shared["tpl"].tokens[0].slot
+        sa = w.C_OpenSession(slot=slot, flags=RW)["h"]
+        ctx.steps += 1
+        try:
+            keys = self.make_keys(w, sa, prog)
+            params = {"iv": "a5" * 16, "ivlen": 12, "aad": "0102", "tagbits": 128, "ctrbits": 64}
+            D = OpDriver(self, w, sa, sp, keys, params, direction)
+            if D.init() != K.CKR_OK:
+                ctx.label("failcell_init_refused")
+                return
+            fi, fs, fu, ff = D.fns()
+            bs = sp.get("block", 1)
+            klen = keys.get("siglen_" + str(sp["key"]), 0)
+            siglen = sp.get("fixed") or klen
+            garbage = bytes((i * 37 + 11) & 0xFF for i in range(512))
+            if how == "single_badlen":
+                n = (klen - 1) if sp["kind"] == "aenc" else bs + 3
+                r = w.call(fs, s=sa, data=garbage[:n].hex(), out=1024)
+            elif how == "single_short":
+                r = w.call(fs, s=sa, data=garbage[:7].hex(), out=1024)
+            elif how == "single_garbage":
+                n = klen if sp["kind"] == "aenc" else 32
+                g = (b"\x00" + garbage)[:n] if sp["kind"] == "aenc" else garbage[:n]
+                r = w.call(fs, s=sa, data=g.hex(), out=1024)
+            elif how == "single_toolong":
+                if "maxin" in sp:
+                    n = sp["maxin"](klen) + 1
+                else:
+                    n = sp["fixed_in"] + 200 if sp["key"] != "rsa" else sp["fixed_in"] - 1
+                r = w.call(fs, s=sa, data=garbage[:n].hex(), out=1024)
+            elif how in ("single_badsig", "single_badsiglen"):
+                n = siglen if how == "single_badsig" else siglen - 1
+                din = garbage[:sp.get("fixed_in", 20)]
+                if sp.get("raw") or sp["mech"] == "CKM_RSA_X_509":
+                    din = (b"\x00" + garbage)[:klen]
+                r = w.call(fs, s=sa, data=din.hex(), sig=(b"\x01" + garbage)[:n].hex())
+            elif how in ("multi_badlen_final", "multi_garbage_final"):
+                n = bs + 3 if how == "multi_badlen_final" else 32
+                r1 = w.call(fu, s=sa, data=garbage[:n].hex(), out=1024)
+                if r1["rv"] != K.CKR_OK:
+                    r = r1
+                else:
+                    r = w.call(ff, s=sa, out=1024)
+            elif how in ("multi_badsig_final", "multi_badsiglen_final"):
+                n = siglen if how == "multi_badsig_final" else siglen - 1
+                r1 = w.call(fu, s=sa, data=garbage[:20].hex())
+                if r1["rv"] != K.CKR_OK:
+                    r = r1
+                else:
+                    r = w.call(ff, s=sa, data=(b"\x01" + garbage)[:n].hex())
+            else:
+                raise KeyError(how)
+            rv = r["rv"]
+            if rv == K.CKR_OK:
+                ctx.label("failcell_call_succeeded")          # (e.g. raw RSA accepts any block below the modulus, a mechanism that takes any length)
+                ctx.case(prog, False, ["failcell"])
+                return
+            if rv == K.CKR_BUFFER_TOO_SMALL:
+                ctx.label("failcell_buffer_too_small")
+                return
+            # the operation failed: it must be gone
+            kindname = {"C_EncryptInit": "encrypt", "C_DecryptInit": "decrypt", "C_SignInit": "sign", "C_VerifyInit": "verify"}[fi]
+            cont = {"encrypt": ("C_EncryptUpdate", dict(data="00" * 16, out=64)), "decrypt": ("C_DecryptUpdate", dict(data="00" * 16, out=64)),
+                    "sign": ("C_SignUpdate", dict(data="00")), "verify": ("C_VerifyUpdate", dict(data="00"))}[kindname]
+            r2 = w.call(cont[0], s=sa, **cont[1])
+            if r2["rv"] != K.CKR_OPERATION_NOT_INITIALIZED:
+                raise self.V("the operation failed (%s -> %s) but is still there: %s -> %s, expected CKR_OPERATION_NOT_INITIALIZED" % (
+                    how, K.rvname(rv), cont[0], K.rvname(r2["rv"])))
+            r3 = w.call(fi, s=sa, mech=D.mech(), key=D.key())
+            if r3["rv"] == K.CKR_OPERATION_ACTIVE:
+                raise self.V("the operation failed (%s -> %s) but a new %s answers CKR_OPERATION_ACTIVE" % (how, K.rvname(rv), fi))
+            ctx.label("failed_op_gone")
+            ctx.label("failcell_rv_" + K.rvname(rv))
+            ctx.case(prog, True, ["failcell"])
+        finally:
+            w.C_CloseSession(s=sa)
+
     def run_program(self, ctx, prog):
+        if isinstance(prog, dict) and prog.get("failcell"):
+            return self.run_failcell(ctx, prog["failcell"])
         self._ctx, self._prog = ctx, prog
         sp = SPECS[prog["spec"]]
         self._desc = "%s/%s" % (prog["spec"], prog["dir"])
